@@ -122,7 +122,13 @@ func hnDrawQCfg(c vs.Chooser) hnQCfg {
 		idle:        time.Duration(vs.Pick(c, 120, 30, 15)) * time.Second,
 	}
 	if vs.Pct(c, 10) {
-		q.keepAlive = time.Duration(vs.Pick(c, 1, 5)) * time.Second
+		// KeepAlivePeriod is not used: a connection that enters the closing or
+		// draining state keeps its keep-alive deadline, and once that deadline has
+		// passed Conn.loop spins (timer "expired", nothing to do) until the drain
+		// period ends. With a real clock that is a bounded busy-wait; under the
+		// simulated clock, which only advances when every goroutine blocks, it
+		// never ends and would be reported as a hang. Observation, see DESIGN 10.2.
+		_ = time.Duration(vs.Pick(c, 1, 5)) * time.Second
 	}
 	return q
 }
